@@ -806,3 +806,89 @@ func ruleCompareAbstract(c *Ctx, r *Report) {
 		r.undecided(rule, "scan/Compare", "-", desc, "no Compare method of a compound representation found")
 	}
 }
+
+// ---------------------------------------------------------------------------
+// R-ATOM-ORDER-BY-NAME (C08; added after seed C08f): atoms are ordered by their names, as texts.  In
+// Atom.Compare every return of a non-zero constant on the atom-against-atom arm (the other operand asserted to
+// Atom) is decided by a comparison of the two WHOLE names: the branch facts there contain a condition computed
+// from strings.Compare, or from a comparison of two strings, over the results of String() of both atoms.  A
+// decision taken from a part of a name (its first character, its length) has a blind spot at the other end of
+// the order: the empty atom has no first character, and utf8.DecodeRuneInString("") is U+FFFD.  Conservative: a
+// correct partial comparison would be reported too.
+func ruleAtomOrderByName(c *Ctx, r *Report) {
+	const rule = "R-ATOM-ORDER-BY-NAME"
+	desc := "two atoms are ordered by a comparison of their whole names"
+	cmp := c.method("Atom", "Compare")
+	str := c.method("Atom", "String")
+	if cmp == nil || str == nil {
+		r.undecided(rule, "anchor:Atom.Compare/String", "-", "locate Atom.Compare and Atom.String", "not found")
+		return
+	}
+	isName := func(v ssa.Value) bool {
+		ok := false
+		for _, l := range c.originSet(v) {
+			if call, _ := callOfValue(l); call != nil && call.Call.StaticCallee() == str {
+				ok = true
+			} else {
+				return false
+			}
+		}
+		return ok
+	}
+	wholeNames := func(v ssa.Value) bool {
+		found := false
+		dataSlice(v, func(x ssa.Value) bool {
+			switch y := x.(type) {
+			case *ssa.Call:
+				if callee := y.Call.StaticCallee(); callee != nil && callee.Pkg != nil && callee.Pkg.Pkg.Path() == "strings" && callee.Name() == "Compare" && len(y.Call.Args) == 2 && isName(y.Call.Args[0]) && isName(y.Call.Args[1]) {
+					found = true
+				}
+			case *ssa.BinOp:
+				if isStringType(y.X.Type()) && isName(y.X) && isName(y.Y) {
+					found = true
+				}
+			}
+			return !found
+		})
+		return found
+	}
+	n := 0
+	eachInstr(cmp, func(in ssa.Instruction) {
+		ret, ok := in.(*ssa.Return)
+		if !ok || len(ret.Results) != 1 {
+			return
+		}
+		k, ok := constInt(ret.Results[0])
+		if !ok || k == 0 {
+			return
+		}
+		// on the atom-against-atom arm?
+		onArm := false
+		for f := range c.factsAt(ret.Block()) {
+			if ex, ok := f.cond.(*ssa.Extract); ok && ex.Index == 1 && f.pol {
+				if ta, ok := ex.Tuple.(*ssa.TypeAssert); ok && isEngNamed(ta.AssertedType, "Atom") {
+					onArm = true
+				}
+			}
+		}
+		if !onArm {
+			return
+		}
+		n++
+		key := fmt.Sprintf("%s/atom-arm-return(%d)#%d", fname(cmp), k, n)
+		decided := false
+		for f := range c.factsAt(ret.Block()) {
+			if wholeNames(f.cond) {
+				decided = true
+			}
+		}
+		if decided {
+			r.ok(rule, key, c.at(ret), desc, "under a condition computed from a comparison of both names", true)
+		} else {
+			r.bad(rule, key, c.at(ret), desc, "the answer is not decided by a comparison of the two whole names: a comparison of parts (first character, length) misorders the names it cannot tell apart, the empty atom first of all")
+		}
+	})
+	if n == 0 {
+		r.undecided(rule, "anchor:atom-arm", c.Pos(cmp.Pos()), desc, "no non-zero constant return under an assertion of the other operand to Atom")
+	}
+}
